@@ -88,16 +88,6 @@ def KF_C18_histogram_profile_viewer_restore(div):
             and isinstance(div.actual, str) and "Module 'glue_qt." in div.actual)
 
 
-def KF_C18_empty_image_viewer_restore(div):
-    """An image viewer whose only dataset left the collection keeps its axis attributes; saving and restoring it fails."""
-    b = div.behaviour
-    if not (b.get('spec') == 'Viewer' and b.get('viewer') == 'image' and div.component == 'exception[SaveRestoreViewer]'
-            and isinstance(div.actual, str) and 'is not in valid choices: []' in div.actual):
-        return False
-    st = b['steps'][div.step]['st']
-    return not st['layers']
-
-
 def KF_C02_joinlink_then_join_on_key(div):
     """A JoinLink helper and a later join_on_key between the same two datasets: the restore brings the helper's join back."""
     b = div.behaviour
